@@ -814,6 +814,11 @@ class Executor:
         for t in node.targets:
             if isinstance(t, ast.Name):
                 st.env.pop(t.id, None)
+            elif isinstance(t, ast.Attribute):
+                o = self.eval1(t.value, st)
+                if not isinstance(o, SObj) or t.attr not in o.fields:
+                    raise Unsupported('del of an attribute the record does not have')
+                del o.fields[t.attr]
             else:
                 raise Unsupported('del of non-name')
         return [(st, ('fall', None))]
@@ -1861,8 +1866,7 @@ class Executor:
                 return self.eval(node.args[1], st)
             if z3.is_false(a):
                 return self.eval(node.args[2], st)
-        if any(isinstance(a, ast.Starred) for a in node.args) or \
-                any(k.arg is None for k in node.keywords):
+        if any(isinstance(a, ast.Starred) for a in node.args):
             raise Unsupported('star-args in call')
         out = []
         arg_nodes = list(node.args) + [k.value for k in node.keywords]
@@ -1877,13 +1881,22 @@ class Executor:
                     out.append((s, None))
                     continue
                 args = vals[:len(node.args)]
-                kwargs = {k.arg: v for k, v in zip(node.keywords, vals[len(node.args):])}
+                kwargs = {}
+                for k, v in zip(node.keywords, vals[len(node.args):]):
+                    if k.arg is None:           # **mapping: a dict with constant string keys
+                        if not isinstance(v, dict) or any(not isinstance(x, str) for x in v):
+                            raise Unsupported('** of a value that is not a dict of names')
+                        kwargs.update(v)
+                    else:
+                        kwargs[k.arg] = v
                 out.extend(self.call(fv, fname, args, kwargs, s, node))
         return out
 
     def call(self, fv, fname, args, kwargs, st, node):
         from . import prims
         if isinstance(fv, SFunc):
+            if getattr(fv, 'needs_state', False):
+                return [(st, fv.fn(st, *args, **kwargs))]
             return [(st, fv.fn(*args, **kwargs))]
         if isinstance(fv, SObj) and fv.cls.startswith('callable:'):
             return [(st, SObj('applied:' + fv.cls[9:], {'fn': fv, 'args': tuple(args)}))]
